@@ -208,7 +208,7 @@ def run(chk):
     for c in corpus:
         if c["kind"] == "toy":
             toy.append((c["lines"], c.get("fails"), c["mode"], c.get("file"), c.get("exprs")))
-    for _ in range(90 if quick else 1500):
+    for _ in range(50 if quick else 1500):
         lines, kind = gen_toy_program(rng)
         for mode, ft, ex in split_modes(rng, lines):
             toy.append((lines, kind, mode, ft, ex))
@@ -229,7 +229,7 @@ def run(chk):
     for c in corpus:
         if c["kind"] == "std":
             std.append((c["lines"], c.get("fails")))
-    for _ in range(60 if quick else 1000):
+    for _ in range(40 if quick else 1000):
         std.append(gen_std_program(rng))
     lib = S.run_sessions(binary_h, [[("J", "use prelude"), ("F", "\n".join(l))] for l, _ in std])
     jobs = []
